@@ -2,6 +2,7 @@ import MoPepGen.Model.Graph
 import MoPepGen.Model.Tvg
 import MoPepGen.Model.TvgLang
 import MoPepGen.Driver.S
+import MoPepGen.Driver.GT
 namespace MoPepGen.Driver.G
 open MoPepGen MoPepGen.Spec MoPepGen.Graph MoPepGen.Driver
 
@@ -208,6 +209,7 @@ def handle (args : List String) : String :=
     toString (framePaths g f.toNat!).length
   | "tvgbuild" :: _ => handleTvg args
   | "tvglang" :: _ => handleTvgLang args
+  | "translate" :: _ => GT.handle args
   | _ => "bad-op"
 
 end MoPepGen.Driver.G
